@@ -5,6 +5,7 @@ rc=0
 for p in $(python3 -c "import json;print(' '.join(c['property_id'] for c in json.load(open('MANIFEST.json'))['checks']))"); do
   out=$(VERIF_SEED=${VERIF_SEED:-1} ./check $p 2>&1); e=$?
   echo "$p exit=$e $(echo "$out" | grep -E "^$p:|^VIOLATION" | tr '\n' ' ' | cut -c1-220)"
+  echo "$out" | grep "witness no longer fails" | cut -c1-160 | sed 's/^/   STALE-WITNESS: /'
   [ $e -ne 0 ] && rc=1
 done
 exit $rc
